@@ -187,7 +187,13 @@ impl Command {
                 where_clause: None,
                 limit: None,
                 offset: None,
-                order_by: None,
+                // Replay must return events in original append order. The memtable and
+                // segment flows are merged in arrival order unless an ORDER BY is present;
+                // event_id is monotonic per shard and a context lives on a single shard.
+                order_by: Some(OrderSpec {
+                    field: "event_id".to_string(),
+                    desc: false,
+                }),
                 picked_zones: None,
                 return_fields: return_fields.clone(),
                 link_field: None,
